@@ -17,6 +17,7 @@ import (
 	"crypto/sha256"
 	"encoding/hex"
 	"fmt"
+	"io"
 	"math/big"
 	"os"
 	"strings"
@@ -191,6 +192,8 @@ func realSweep(family string, n int, seed uint64, args []string) int {
 		realDigest(r, n, sw)
 	case "conc":
 		realConc(r, n, sw)
+	case "entropy":
+		realEntropy(r, n, sw)
 	default:
 		fmt.Fprintln(os.Stderr, "unknown real family", family)
 		return 2
@@ -850,4 +853,108 @@ func realConc(r *rng, n int, sw *sweep) {
 		}
 	}
 	_ = strings.Join
+}
+
+// ---------------------------------------------------------------- C20: failing entropy sources
+
+type errReader struct{}
+
+func (errReader) Read([]byte) (int, error) { return 0, errSigner }
+
+// delivers `left` bytes, then fails
+type shortReader struct{ left int }
+
+func (s *shortReader) Read(p []byte) (int, error) {
+	if s.left <= 0 {
+		return 0, io.ErrUnexpectedEOF
+	}
+	n := len(p)
+	if n > s.left {
+		n = s.left
+	}
+	for i := 0; i < n; i++ {
+		p[i] = 0x42
+	}
+	s.left -= n
+	return n, nil
+}
+
+func realEntropy(r *rng, n int, sw *sweep) {
+	algs := []cose.Algorithm{cose.AlgorithmES256, cose.AlgorithmES384, cose.AlgorithmES512, cose.AlgorithmPS256, cose.AlgorithmPS384, cose.AlgorithmPS512}
+	for i := 0; i < n; i++ {
+		alg := algs[r.intn(len(algs))]
+		k := realKeyFor(alg, r)
+		signer, verifier, err := signerVerifier(k, false)
+		if err != nil {
+			sw.fail("entropy", "", "cannot build signer")
+			continue
+		}
+		var rd io.Reader = errReader{}
+		rdName := "err"
+		if r.chance(1, 2) {
+			left := r.intn(24)
+			rd, rdName = &shortReader{left: left}, fmt.Sprintf("short%d", left)
+		}
+		desc := fmt.Sprintf("alg=%d reader=%s", alg, rdName)
+		hdr := func() cose.Headers {
+			return cose.Headers{Protected: cose.ProtectedHeader{cose.HeaderLabelAlgorithm: alg}, Unprotected: cose.UnprotectedHeader{}}
+		}
+		sw.evals++
+		// Sign1Message.Sign
+		m := &cose.Sign1Message{Headers: hdr(), Payload: []byte("payload")}
+		err = m.Sign(rd, nil, signer)
+		if err == nil {
+			// the primitive may legitimately not need (that much) entropy: then the result must be valid
+			if m.Verify(nil, verifier) != nil {
+				sw.fail("entropy", desc, "Sign returned nil with a failing entropy source and the signature does not verify")
+			}
+		} else {
+			if len(m.Signature) != 0 {
+				sw.fail("entropy", desc, "a signature was stored although Sign returned an error")
+			}
+			if b, e := m.MarshalCBOR(); e == nil || b != nil {
+				sw.fail("entropy", desc, "a message whose signing failed can be serialised")
+			}
+			sw.nontrivial++
+		}
+		// helper
+		if b, e := cose.Sign1(rd, signer, hdr(), []byte("p"), nil); e != nil && b != nil {
+			sw.fail("entropy", desc, "Sign1 helper returned bytes together with an error")
+		}
+		// COSE_Sign: first signer has good entropy … no: one reader for all signers; use a reader
+		// that survives the first signature only
+		sm := &cose.SignMessage{Headers: cose.Headers{Protected: cose.ProtectedHeader{}, Unprotected: cose.UnprotectedHeader{}}, Payload: []byte("p"),
+			Signatures: []*cose.Signature{{Headers: hdr()}, {Headers: hdr()}}}
+		e2 := sm.Sign(&shortReader{left: 40 + r.intn(200)}, nil, signer, signer)
+		if e2 != nil {
+			empty := 0
+			for _, sg := range sm.Signatures {
+				if len(sg.Signature) == 0 {
+					empty++
+				}
+			}
+			if empty == 0 {
+				sw.fail("entropy", desc, "SignMessage.Sign failed but every slot holds a signature")
+			}
+			if b, e := sm.MarshalCBOR(); e == nil || b != nil {
+				sw.fail("entropy", desc, "half-signed COSE_Sign can be serialised")
+			}
+		} else if sm.Verify(nil, verifier, verifier) != nil {
+			sw.fail("entropy", desc, "SignMessage.Sign returned nil but the result does not verify")
+		}
+		// countersignature and hash envelope
+		parent := &cose.Sign1Message{Headers: hdr(), Payload: []byte("x"), Signature: []byte{1, 2, 3}}
+		cs := cose.NewCountersignature()
+		cs.Headers.Protected.SetAlgorithm(alg)
+		if e := cs.Sign(rd, signer, parent, nil); e != nil && len(cs.Signature) != 0 {
+			sw.fail("entropy", desc, "Countersignature.Sign stored a signature although it failed")
+		}
+		if sig, e := cose.Countersign0(rd, signer, parent, nil); e != nil && len(sig) != 0 {
+			sw.fail("entropy", desc, "Countersign0 returned bytes together with an error")
+		}
+		hv := sha256.Sum256([]byte("x"))
+		if b, e := cose.SignHashEnvelope(rd, signer, cose.Headers{}, cose.HashEnvelopePayload{HashAlgorithm: cose.AlgorithmSHA256, HashValue: hv[:]}); e != nil && b != nil {
+			sw.fail("entropy", desc, "SignHashEnvelope returned bytes together with an error")
+		}
+	}
 }
